@@ -1,3 +1,4 @@
+import DiffxVerif.Model.Codecs
 import DiffxVerif.Spec.Document
 import DiffxVerif.Model.Split
 import DiffxVerif.Model.Hunks
@@ -150,6 +151,26 @@ def opSpecRead (cfg : Config) (tbl : Table) (args : List String) : String :=
         let sp := Spec.reading env cfg doc
         " ".intercalate (["R", encBytes data, "|", os, toString rs.length] ++ rs.map showRecord ++
           ["|", "done", toString sp.length] ++ sp.map showRecord)
+    | _, _ => "E bad-args"
+  | _ => "E bad-args"
+
+/-- `codec <name> n|e|d <payload>` : the concrete Lean codecs of `Model/Codecs.lean`
+(`canon`, `encode`, `decode` of `Codecs.env`), to be compared with CPython -/
+def opCodec (args : List String) : String :=
+  let env := Codecs.env (fun _ => .err) (fun _ => .err) (fun _ => .err)
+  let showR {α} (f : α → String) : EnvR α → String
+    | .ok a => "R ok " ++ f a
+    | .err => "R err"
+    | .missing q => "Q " ++ q
+  match args with
+  | [n, "n"] => match decText n with
+    | some name => showR encText (env.canon name)
+    | none => "E bad-args"
+  | [n, "e", t] => match decText n, decText t with
+    | some name, some text => showR encBytes (env.encode name text)
+    | _, _ => "E bad-args"
+  | [n, "d", b] => match decText n, decBytes b with
+    | some name, some data => showR encText (env.decode name data)
     | _, _ => "E bad-args"
   | _ => "E bad-args"
 
@@ -458,6 +479,7 @@ def runOp (s : DState) (toks : List String) : String :=
   | "guess" :: args => opGuess s.cfg s.tbl args
   | "read" :: args => opRead s.cfg s.tbl args
   | "specread" :: args => opSpecRead s.cfg s.tbl args
+  | "codec" :: args => opCodec args
   | "write" :: args => opWrite s.cfg s.tbl args
   | "lex" :: args => opLex args
   | "heap" :: args => opHeap args
